@@ -100,6 +100,10 @@ Apply(g, e) ==
     [] e.op = "subseq"        -> Cut(g, e.s, e.e)
     [] e.op = "set"           -> SetCell(g, e.i, e.p, e.c)
     [] e.op = "add"           -> AddRows(g, e.news)
+    \* RevComp / Reverse of ONE row through the row view (alignment.Row, QRow; a Multi's row is its own
+    \* sequence): that row's letters are mirrored in place, its offset and the other rows are untouched
+    [] e.op = "rowrevcomp"    -> [g EXCEPT !.rows[e.i].cells = RevCompCells(g.alpha, @)]
+    [] e.op = "rowreverse"    -> [g EXCEPT !.rows[e.i].cells = Rev(@)]
     [] OTHER                  -> g          \* probes: the container must not change
 
 Defined(g, e) ==
